@@ -204,6 +204,40 @@ fn fill_planes(rng: &mut Rng, w: usize, h: usize, fill: usize) -> (Vec<u8>, Vec<
                 }
             }
         }
+        3 => {
+            // periodic / repeated structure: repeated rows and columns (period 1, 2, 4 or 8 in each
+            // direction, independently for luma and chroma) - content-dependent shortcuts show here
+            let (px, py, cx, cy) = (1usize << rng.below(4), 1usize << rng.below(4), 1usize << rng.below(3), 1usize << rng.below(3));
+            let mut ty = [0u8; 64];
+            let mut tb = [0u8; 64];
+            let mut tr = [0u8; 64];
+            rng.fill(&mut ty);
+            rng.fill(&mut tb);
+            rng.fill(&mut tr);
+            for j in 0..h {
+                for i in 0..w {
+                    y[j * w + i] = ty[(j % py) * 8 + i % px];
+                }
+            }
+            for j in 0..ch {
+                for i in 0..cw {
+                    cb[j * cw + i] = tb[(j % cy) * 8 + i % cx];
+                    cr[j * cw + i] = tr[(j % cy) * 8 + i % cx];
+                }
+            }
+        }
+        4 => {
+            // one plane constant, the others random
+            rng.fill(&mut y);
+            rng.fill(&mut cb);
+            rng.fill(&mut cr);
+            let c = rng.byte();
+            match rng.below(3) {
+                0 => y.iter_mut().for_each(|v| *v = c),
+                1 => cb.iter_mut().for_each(|v| *v = c),
+                _ => cr.iter_mut().for_each(|v| *v = c),
+            }
+        }
         _ => {
             for v in y.iter_mut() {
                 *v = *rng.pick(&[0u8, 255, 16, 235]);
@@ -270,7 +304,7 @@ pub fn run_c08(ctx: &Ctx) -> (Report, String) {
         let mut rng = Rng::new(ctx.seed ^ 0xC08, s as u64);
         crate::mon::guarded(&mut rep, || J::obj().set("property", "C08").set("w", w), |rep| {
             for h in 1..=maxd {
-                for fill in (0..3).filter(|f| !ctx.miri() || *f == h % 3) {
+                for fill in (0..5).filter(|f| !ctx.miri() || *f == h % 5) {
                     c08_image(&k, &mut rng, w, h, fill, rep);
                 }
             }
@@ -311,7 +345,7 @@ pub fn run_c08(ctx: &Ctx) -> (Report, String) {
         extra.push((3, 17));
     }
     for (w, h) in extra {
-        for fill in 0..3 {
+        for fill in [0usize, 1, 3] {
             c08_image(&k, &mut rng, w, h, fill, &mut rep);
         }
         rep.count("strips_and_formats");
@@ -326,7 +360,7 @@ pub fn run_c08(ctx: &Ctx) -> (Report, String) {
     rep.sample(4, || J::obj().set("sizes", format!("every (w,h) in 1..={} x 1..={}", maxd, maxd)).set("fills", "0 = uniform random, 1 = position-unique ramp (a shifted index changes the colour), 2 = extremes"));
     rep.exhaustive = Some(false);
     if ctx.is_main() && ctx.scale_pct == 100 {
-        rep.require("images_compared", (maxd * maxd * 3) as u64);
+        rep.require("images_compared", (maxd * maxd * 5) as u64);
         rep.require("remainder_path_pixels", 10000);
         rep.require("empty_picture_ok", 1);
     }
